@@ -93,6 +93,8 @@ Record smon := {
   sm_lastjump : Z * Z * Z;       (* key, n, result of the previous direct jumpHash call *)
   sm_ok_jump : bool;
   sm_ok_rr : bool; sm_ok_wrr_exact : bool; sm_ok_wrr_bound : bool; sm_ok_lc : bool;
+  sm_wx : bool * bool * bool;    (* WRR: the proved bound 2(n-1)W_T held; the stated bound 2W_T failed in the known class (five or more
+                                    members, after health changes, within the proved bound); it failed outside that class *)
   sm_ok_aff : bool; sm_ok_valid : bool; sm_ok_remap : bool;
   sm_nt5 : bool; sm_nt6 : bool
 }.
@@ -110,6 +112,14 @@ Definition wrr_bound_ok (pool : list backend) (stretch : list Z) : bool :=
   let wt := total_weight pool in
   let n := zlen stretch in
   forallb (fun b => zabs_le (count_id (bid b) stretch * we - n * bweight b) (2 * wt)) hs.
+
+(* the bound that is a theorem (Props/C05.v, C05_wrr_bounded_after_any_history): | n_i * W_E - N * w_i | <= 2 * (n - 1) * W_T *)
+Definition wrr_proved_ok (pool : list backend) (stretch : list Z) : bool :=
+  let hs := healthy pool in
+  let we := total_weight hs in
+  let wt := total_weight pool in
+  let n := zlen stretch in
+  forallb (fun b => zabs_le (count_id (bid b) stretch * we - n * bweight b) (2 * ((zlen pool - 1) * wt))) hs.
 
 Definition wrr_exact_ok (pool : list backend) (stretch : list Z) : bool :=
   let w := total_weight pool in
@@ -139,7 +149,7 @@ Definition sm_change (m : smon) (s' : sstate) (appended : Z) (removed flagchg : 
      sm_fresh := (match skd s' with WRR => removed || (sm_fresh m && is_nil (sm_stretch m)) | _ => false end);
      sm_removed := sm_removed m || removed; sm_changed_flags := sm_changed_flags m || flagchg;
      sm_seen := []; sm_prev := sm_seen m; sm_appended := appended; sm_lastjump := sm_lastjump m; sm_ok_jump := sm_ok_jump m;
-     sm_ok_rr := sm_ok_rr m; sm_ok_wrr_exact := sm_ok_wrr_exact m; sm_ok_wrr_bound := sm_ok_wrr_bound m;
+     sm_ok_rr := sm_ok_rr m; sm_ok_wrr_exact := sm_ok_wrr_exact m; sm_ok_wrr_bound := sm_ok_wrr_bound m; sm_wx := sm_wx m;
      sm_ok_lc := sm_ok_lc m; sm_ok_aff := sm_ok_aff m; sm_ok_valid := sm_ok_valid m; sm_ok_remap := sm_ok_remap m;
      sm_nt5 := sm_nt5 m; sm_nt6 := sm_nt6 m |}.
 
@@ -159,6 +169,14 @@ Definition sm_pick (m : smon) (r : hreq) (p : Z) : smon :=
      sm_ok_wrr_exact := sm_ok_wrr_exact m &&
         (match skd s with WRR => if sm_fresh m && all_flagged pool then wrr_exact_ok pool stretch else true | _ => true end);
      sm_ok_wrr_bound := sm_ok_wrr_bound m && (match skd s with WRR => wrr_bound_ok pool stretch | _ => true end);
+     sm_wx := (match skd s with
+               | WRR =>
+                   let '(pv, known, other) := sm_wx m in
+                   let stated := wrr_bound_ok pool stretch in
+                   let proved := wrr_proved_ok pool stretch in
+                   let cls := (5 <=? zlen pool) && sm_changed_flags m && proved in
+                   (pv && proved, known || (negb stated && cls), other || (negb stated && negb cls))
+               | _ => sm_wx m end);
      sm_ok_lc := sm_ok_lc m && (match skd s with LC => lc_min_ok pool p | _ => true end);
      sm_ok_aff := sm_ok_aff m &&
         (if hashk then match lookup_client key (sm_seen m) with Some q => Z.eqb p q | None => true end else true);
@@ -191,7 +209,7 @@ Definition sm_step (m : smon) (o : sop) (ob : list Z) : smon :=
       {| sm_s := s_upd s id (set_active a); sm_stretch := sm_stretch m; sm_fresh := sm_fresh m;
          sm_removed := sm_removed m; sm_changed_flags := sm_changed_flags m;
          sm_seen := sm_seen m; sm_prev := sm_prev m; sm_appended := sm_appended m; sm_lastjump := sm_lastjump m; sm_ok_jump := sm_ok_jump m;
-         sm_ok_rr := sm_ok_rr m; sm_ok_wrr_exact := sm_ok_wrr_exact m; sm_ok_wrr_bound := sm_ok_wrr_bound m;
+         sm_ok_rr := sm_ok_rr m; sm_ok_wrr_exact := sm_ok_wrr_exact m; sm_ok_wrr_bound := sm_ok_wrr_bound m; sm_wx := sm_wx m;
          sm_ok_lc := sm_ok_lc m; sm_ok_aff := sm_ok_aff m; sm_ok_valid := sm_ok_valid m; sm_ok_remap := sm_ok_remap m;
          sm_nt5 := sm_nt5 m; sm_nt6 := sm_nt6 m |}
   | OPick r => match ob with p :: _ => sm_pick m r p | [] => m end
@@ -206,7 +224,7 @@ Definition sm_step (m : smon) (o : sop) (ob : list Z) : smon :=
       {| sm_s := s'; sm_stretch := []; sm_fresh := false;
          sm_removed := sm_removed m; sm_changed_flags := sm_changed_flags m;
          sm_seen := sm_seen m; sm_prev := sm_prev m; sm_appended := sm_appended m; sm_lastjump := sm_lastjump m; sm_ok_jump := sm_ok_jump m;
-         sm_ok_rr := sm_ok_rr m && ok; sm_ok_wrr_exact := sm_ok_wrr_exact m; sm_ok_wrr_bound := sm_ok_wrr_bound m;
+         sm_ok_rr := sm_ok_rr m && ok; sm_ok_wrr_exact := sm_ok_wrr_exact m; sm_ok_wrr_bound := sm_ok_wrr_bound m; sm_wx := sm_wx m;
          sm_ok_lc := sm_ok_lc m; sm_ok_aff := sm_ok_aff m; sm_ok_valid := sm_ok_valid m; sm_ok_remap := sm_ok_remap m;
          sm_nt5 := sm_nt5 m || (2 <=? len); sm_nt6 := sm_nt6 m |}
   | OJump key n =>
@@ -218,7 +236,7 @@ Definition sm_step (m : smon) (o : sop) (ob : list Z) : smon :=
          sm_removed := sm_removed m; sm_changed_flags := sm_changed_flags m;
          sm_seen := sm_seen m; sm_prev := sm_prev m; sm_appended := sm_appended m;
          sm_lastjump := (key, n, r); sm_ok_jump := sm_ok_jump m && ok;
-         sm_ok_rr := sm_ok_rr m; sm_ok_wrr_exact := sm_ok_wrr_exact m; sm_ok_wrr_bound := sm_ok_wrr_bound m;
+         sm_ok_rr := sm_ok_rr m; sm_ok_wrr_exact := sm_ok_wrr_exact m; sm_ok_wrr_bound := sm_ok_wrr_bound m; sm_wx := sm_wx m;
          sm_ok_lc := sm_ok_lc m; sm_ok_aff := sm_ok_aff m; sm_ok_valid := sm_ok_valid m; sm_ok_remap := sm_ok_remap m;
          sm_nt5 := sm_nt5 m; sm_nt6 := sm_nt6 m || (2 <=? n) |}
   | OPickI _ _ _ => m
@@ -233,12 +251,13 @@ Fixpoint sm_run (m : smon) (ops : list sop) (obs : list (list Z)) : smon :=
 Definition sm_init (k : skind) : smon :=
   {| sm_s := s_init k; sm_stretch := []; sm_fresh := true; sm_removed := false; sm_changed_flags := false;
      sm_seen := []; sm_prev := []; sm_appended := -1; sm_lastjump := (-1, -1, -1); sm_ok_jump := true;
-     sm_ok_rr := true; sm_ok_wrr_exact := true; sm_ok_wrr_bound := true; sm_ok_lc := true;
+     sm_ok_rr := true; sm_ok_wrr_exact := true; sm_ok_wrr_bound := true; sm_wx := (true, false, false); sm_ok_lc := true;
      sm_ok_aff := true; sm_ok_valid := true; sm_ok_remap := true; sm_nt5 := false; sm_nt6 := false |}.
 
 (* result vector:
    [ diff; mon_rr; mon_wrr_exact; mon_wrr_bound; mon_lc; mon_affinity; mon_valid; mon_remap;
-     cls_wrr_removed (a removal preceded: stale running weights); nt_c05; nt_c06 ] *)
+     cls_wrr_removed (a removal preceded: stale running weights); nt_c05; nt_c06;
+     mon_wrr_proved (the proved bound 2(n-1)W_T/W_E); cls_wrr_flap (every failure of the stated bound 2W_T/W_E is in the known class) ] *)
 Definition eval_str_case (k : str_case) : list Z :=
   let kind := skind_of (sc_kind k) in
   let model := str_run (s_init kind) 0 (sc_ops k) in
@@ -246,4 +265,5 @@ Definition eval_str_case (k : str_case) : list Z :=
   [ first_diff (flat_obs model) (flat_obs (sc_obs k));
     b2z (sm_ok_rr m); b2z (sm_ok_wrr_exact m); b2z (sm_ok_wrr_bound m); b2z (sm_ok_lc m);
     b2z (sm_ok_aff m); b2z (sm_ok_valid m); b2z (sm_ok_remap m && sm_ok_jump m);
-    b2z (sm_removed m); b2z (sm_nt5 m); b2z (sm_nt6 m) ].
+    b2z (sm_removed m); b2z (sm_nt5 m); b2z (sm_nt6 m);
+    b2z (fst (fst (sm_wx m))); b2z (snd (fst (sm_wx m)) && negb (snd (sm_wx m))) ].
